@@ -216,7 +216,7 @@ func randomPlan() fitPlan {
 }
 
 func genBiosOnly(pl fitPlan) *image {
-	n := pick(0x2000, 0x4000, 0x8000)
+	n := pick(0x2000, 0x2000, 0x3000, 0x4000, 0x8000)
 	im := &image{Name: "bios-only", Bytes: newPatImage(n), Lay: layout{Kind: "bios"}, RegionEnd: n, FitOK: true}
 	tbl := n - 0x800
 	im.Fit = buildFit(im, pl, 0, tbl)
@@ -225,7 +225,7 @@ func genBiosOnly(pl fitPlan) *image {
 }
 
 func genIFD(pl fitPlan) *image {
-	nblk := pick(4, 8, 16)
+	nblk := pick(3, 4, 4, 6, 8)
 	n := nblk * 0x1000
 	base := 1 + rng.Intn(nblk-2)
 	im := &image{Name: "ifd", Bytes: newPatImage(n), RegionEnd: n, RegionBeg: base * 0x1000, FitOK: true}
@@ -240,9 +240,12 @@ func genIFD(pl fitPlan) *image {
 // coreboot: FMAP with a COREBOOT area that ends at the end of the image; the CBFS ends with
 // the bootblock, which holds the FIT and the FIT pointer.
 func genCoreboot(pl fitPlan) *image {
-	nblk := pick(4, 8, 16)
+	nblk := pick(3, 4, 4, 8)
 	n := nblk * 0x1000
-	cbOff := pick(0x1000, 0x2000)
+	cbOff := pick(0x1000, 0x1000, 0x2000)
+	if nblk == 3 {
+		cbOff = 0x1000
+	}
 	im := &image{Name: "coreboot", Bytes: newPatImage(n), RegionEnd: n, RegionBeg: cbOff, FitOK: true, IsCbfs: true, CbfsOff: uint32(cbOff)}
 	areas := []fmapArea{{"FMAP", 0x100, 0x200}, {"RW_MISC", 0x400, 0x400}, {"COREBOOT", uint32(cbOff), uint32(n - cbOff)}}
 	if rng.Intn(2) == 0 {
@@ -330,17 +333,19 @@ func genFake(pl fitPlan, embed bool) *image {
 
 func genAny() *image {
 	pl := randomPlan()
-	switch rng.Intn(10) {
+	switch rng.Intn(24) {
+	case 0:
+		return genFake(pl, false)
+	case 1:
+		return genFake(pl, true)
+	}
+	switch rng.Intn(8) {
 	case 0, 1, 2:
 		return genBiosOnly(pl)
 	case 3, 4, 5:
 		return genIFD(pl)
-	case 6, 7:
-		return genCoreboot(pl)
-	case 8:
-		return genFake(pl, false)
 	default:
-		return genFake(pl, true)
+		return genCoreboot(pl)
 	}
 }
 
@@ -573,8 +578,8 @@ type segInput struct {
 // ------------------------------------------------------------------ case kinds
 
 func caseOffset(im *image) {
-	addrs := []uint64{im.phys(im.RegionBeg), im.phys(len(im.Bytes) - 1), im.phys(im.RegionBeg + rng.Intn(len(im.Bytes)-im.RegionBeg)),
-		basePhys - 1, basePhys - 16}
+	addrs := []uint64{im.phys(im.RegionBeg + rng.Intn(len(im.Bytes)-im.RegionBeg)),
+		pick(im.phys(im.RegionBeg), im.phys(len(im.Bytes)-1), basePhys-1, basePhys-16)}
 	switch rng.Intn(4) {
 	case 0:
 		addrs = append(addrs, 0, basePhys, basePhys+uint64(rng.Intn(1<<20)), ^uint64(0), 1<<63, uint64(rng.Int63()))
@@ -1218,7 +1223,7 @@ func probes() {
 // ------------------------------------------------------------------ main
 
 func main() {
-	ctx = gal.New("C19", header, 0)
+	ctx = gal.New("C19", header, 130)
 	rng = ctx.Rng
 	logrus.SetOutput(os.Stderr)
 	logrus.SetLevel(logrus.ErrorLevel)
